@@ -190,10 +190,12 @@ const FN_NAMES: &[&str] = &["a", "b", "f", "g", "h"];
 const CONST_NAMES: &[&str] = &["c", "k", "x"];
 const LOCALS: &[&str] = &["a", "b", "x", "y", "c"];
 const TYPE_NAMES: &[&str] = &["A", "B", "T"];
-const CTOR_NAMES: &[&str] = &["A", "B", "C", "D"];
+// a module may declare constructors spelled like the prelude's (`Ok`, `Error`, `Nil`, `True`): they shadow the built-ins
+const CTOR_NAMES: &[&str] = &["A", "B", "C", "D", "A", "B", "Ok", "Nil", "Error", "True"];
 const LABELS: &[&str] = &["l", "x", "n"];
 // directories called like the source directories themselves are legal module path segments
-const MOD_NAMES: &[&str] = &["m", "n", "p", "q/sub", "test/h", "src/g"];
+// `sub` next to `q/sub`, `g` next to `src/g`: two modules with the same last segment (one of them is imported under an alias)
+const MOD_NAMES: &[&str] = &["m", "n", "p", "q/sub", "test/h", "src/g", "sub", "g"];
 
 pub struct Cfg {
     pub max_modules: usize,
@@ -217,10 +219,30 @@ impl Default for Cfg {
 struct Em {
     text: String,
     file: usize,
+    /// 0 = the layout the formatter prints; otherwise the state of a counter-based sequence (seeded
+    /// from the choice stream) that decides how the colon of a label and the dot of an access are
+    /// spaced: `l : 1`, `l:1`, `m. f`, `v .l` are the same tokens
+    noise: u64,
 }
 
 impl Em {
     fn raw(&mut self, s: &str) {
+        if self.noise != 0 && (s == ": " || s == ":" || s == ".") {
+            self.noise = self.noise.wrapping_mul(6364136223846793005).wrapping_add(1442695040888963407);
+            let k = (self.noise >> 33) % 4;
+            let t = match (s, k) {
+                (".", 0) => ".",
+                (".", 1) => ". ",
+                (".", 2) => " .",
+                (".", _) => " . ",
+                (_, 0) => ": ",
+                (_, 1) => " : ",
+                (_, 2) => ":",
+                (_, _) => "  :  ",
+            };
+            self.text.push_str(t);
+            return;
+        }
         self.text.push_str(s);
     }
     fn pos(&self) -> usize {
@@ -315,7 +337,8 @@ impl<'a, 'b, 'c> G<'a, 'b, 'c> {
                     // util depends on lib as well? no: lib is only a dependency of app; keep a transitive case:
                     // a third-level package that app does NOT depend on directly
                     // sometimes sorted after `lib` in gleam.toml, sometimes before
-                    let dname = if self.c.chance(128) { "deep" } else { "zdeep" };
+                    // (`libdeep`: a sibling directory of `lib` whose path has `lib`'s path as a textual prefix)
+                    let dname = match self.c.below(3) { 0 => "deep", 1 => "zdeep", _ => "libdeep" };
                     pkgs.push((dname.to_string(), format!("/ws/app/build/packages/{}", dname), false, vec![]));
                     let d = pkgs.len() - 1;
                     pkgs[1].3.push(d);
@@ -604,7 +627,8 @@ impl<'a, 'b, 'c> G<'a, 'b, 'c> {
     fn emit_module(&mut self, m: usize) {
         self.cur = m;
         let file = self.mods[m].file;
-        let mut em = Em { text: String::new(), file };
+        let noise = if self.c.chance(90) { 1 + self.c.below(255) as u64 } else { 0 };
+        let mut em = Em { text: String::new(), file, noise };
         if self.cfg.non_ascii && self.c.chance(60) {
             em.raw("//// modülé 💣 doc\n");
         }
